@@ -971,7 +971,7 @@ fn shape_kind(s: &Shape) -> &'static str {
     match s {
         Shape::Empty => "empty",
         Shape::Simple(_) => "simple",
-        Shape::Composite(_) => "composite",
+        Shape::Composite(_) | Shape::RawComposite(..) => "composite",
     }
 }
 fn out_kind(s: &OutGlyph) -> &'static str {
@@ -1325,6 +1325,100 @@ pub fn corpus_for_c09(thorough: bool) -> Vec<(String, Vec<u8>, Vec<Vec<i32>>)> {
             }
         }
     }
+    out
+}
+
+/// A few model fonts used as seeds of the C01 fault sweep: one per HVAR kind (direct, mapped, several subtables,
+/// LONG_WORDS ...) with an MVAR, one with intermediate regions and shared points, the 300-point packing glyph.
+pub fn seeds_for_c01() -> Vec<(String, Vec<u8>)> {
+    let mut out = Vec::new();
+    let mut add = |family: &str, idx: Vec<usize>| {
+        if let Some(case) = gen(family, &idx) {
+            out.push((format!("c12-{}-{}", family, idx.iter().map(|i| i.to_string()).collect::<Vec<_>>().join("-")), build_font(&case.font)));
+        }
+    };
+    for hk in 0..8 {
+        add("metrics", vec![hk, hk % 4, 1, hk % 2, hk % 3]);
+    }
+    add("regions1", vec![60, 3, 0, 1]);
+    add("regions2", vec![40, 0]);
+    add("packing", vec![1, 1, 1, 4, 1, 1, 1]);
+    out.extend(composite_seeds());
+    out
+}
+
+/// Variable fonts whose composite glyphs are nested, cyclic or otherwise unusual, each composite with gvar data so
+/// that the instancer moves its components and recalculates its bounding box through the component tree.
+/// Only for the crash checks (C01): the reference evaluator does not interpret these components.
+pub fn composite_seeds() -> Vec<(String, Vec<u8>)> {
+    const XY: u16 = 0x0002 | 0x0004; // ARGS_ARE_XY_VALUES | ROUND_XY_TO_GRID
+    let rc = |gid: u16, dx: i16, dy: i16| RawComp { flags: XY | 0x0001, gid, arg1: dx, arg2: dy, transform: vec![] };
+    let square = GlyphDef { shape: Shape::Simple(vec![vec![pt(0, 0, true), pt(100, 0, true), pt(100, 100, true), pt(0, 100, true)]]), advance: 1000, lsb: 0 };
+    let raw = |comps: Vec<RawComp>| GlyphDef { shape: Shape::RawComposite([0, 0, 100, 100], comps), advance: 1000, lsb: 0 };
+    // one tuple at peak +1 with a delta for every component and phantom point
+    let var = |n: usize, g: usize| -> Option<GlyphVar> {
+        let d: Vec<(i16, i16)> = (0..n + 4).map(|j| (M[(g + 2 * j + 3) % 13], M[(3 * g + j + 5) % 13])).collect();
+        Some(GlyphVar { tuples: vec![tuple(vec![ONE], None, PointSel::All, d)], shared_points: None, shared_pt_pack: PtPack::default() })
+    };
+    let build = |name: &str, glyphs: Vec<GlyphDef>| -> (String, Vec<u8>) {
+        let gvar: Vec<Option<GlyphVar>> = glyphs.iter().enumerate().map(|(g, gd)| if g == 0 { None } else { var(gd.shape.num_points(), g) }).collect();
+        (format!("c12-composite-{}", name), build_font(&base_font(vec![axis(0, 0)], glyphs, gvar)))
+    };
+    let mut out = Vec::new();
+    // (a) a composite whose component is itself; and one that enters the self-cycle from outside
+    out.push(build("self-cycle", vec![empty_glyph(600), square.clone(), raw(vec![rc(2, 10, 10)])]));
+    out.push(build("enters-self-cycle", vec![empty_glyph(600), square.clone(), raw(vec![rc(1, 0, 0), rc(2, 10, 10)]), raw(vec![rc(2, 5, 5)])]));
+    // (b) two composites referencing each other; and a third one that enters that cycle from outside
+    out.push(build("mutual-cycle", vec![empty_glyph(600), square.clone(), raw(vec![rc(3, 10, 0)]), raw(vec![rc(2, 0, 10)])]));
+    out.push(build("enters-mutual-cycle", vec![empty_glyph(600), square.clone(), raw(vec![rc(1, 0, 0), rc(3, 10, 0)]), raw(vec![rc(2, 0, 10)]), raw(vec![rc(2, 5, 5)])]));
+    out.push(build("three-cycle", vec![empty_glyph(600), square.clone(), raw(vec![rc(3, 10, 0)]), raw(vec![rc(4, 0, 10)]), raw(vec![rc(2, 3, 3), rc(1, 0, 0)])]));
+    // (c) chains of nested composites: glyph 2 -> 1, glyph 3 -> 2, ...
+    for depth in [3usize, 7, 12] {
+        let mut g = vec![empty_glyph(600), square.clone()];
+        for k in 0..depth {
+            g.push(raw(vec![rc(1 + k as u16, 10, -10), rc(1, 200, 0)]));
+        }
+        out.push(build(&format!("chain-depth-{}", depth), g));
+    }
+    // the deepest glyph first, so that it is processed before its children
+    {
+        let depth = 12u16;
+        let mut g = vec![empty_glyph(600), square.clone()];
+        for k in 0..depth {
+            let child = if k + 1 == depth { 1 } else { 3 + k };
+            g.push(raw(vec![rc(child, 10, -10)]));
+        }
+        out.push(build("chain-depth-12-parent-first", g));
+    }
+    // (d) a component glyph id beyond numGlyphs
+    out.push(build("component-beyond-num-glyphs", vec![empty_glyph(600), square.clone(), raw(vec![rc(1, 0, 0), rc(999, 10, 10)]), raw(vec![rc(0xFFFF, 1, 1)])]));
+    // (e) point-number arguments (ARGS_ARE_XY_VALUES clear), bytes and words, in range and out of range
+    out.push(build(
+        "point-number-arguments",
+        vec![
+            empty_glyph(600),
+            square.clone(),
+            raw(vec![rc(1, 0, 0), RawComp { flags: 0, gid: 1, arg1: 2, arg2: 1, transform: vec![] }]),
+            raw(vec![rc(1, 0, 0), RawComp { flags: 0x0001, gid: 1, arg1: 3, arg2: 0, transform: vec![] }]),
+        ],
+    ));
+    out.push(build(
+        "point-number-arguments-out-of-range",
+        vec![empty_glyph(600), square.clone(), raw(vec![rc(1, 0, 0), RawComp { flags: 0x0001, gid: 1, arg1: 300, arg2: -1, transform: vec![] }])],
+    ));
+    // (f) 2x2 transform with SCALED_COMPONENT_OFFSET; also a plain scale and an x/y scale with UNSCALED_COMPONENT_OFFSET
+    out.push(build(
+        "transforms",
+        vec![
+            empty_glyph(600),
+            square.clone(),
+            raw(vec![RawComp { flags: XY | 0x0001 | 0x0080 | 0x0800, gid: 1, arg1: 50, arg2: -30, transform: vec![8192, 4096, -4096, 16384] }]),
+            raw(vec![
+                RawComp { flags: XY | 0x0008 | 0x0800, gid: 1, arg1: 5, arg2: 6, transform: vec![-32768] },
+                RawComp { flags: XY | 0x0001 | 0x0040 | 0x1000, gid: 2, arg1: 500, arg2: 0, transform: vec![32767, -16384] },
+            ]),
+        ],
+    ));
     out
 }
 
